@@ -1,10 +1,11 @@
 \* binding T: the configurations are the loop bodies exported from the scripts that the
-\* real evaluable.compile generated (JSON table in env VF_TABLE), 2 processes x 2 iterations
+\* real evaluable.compile generated (JSON table in env VF_TABLE), 2 processes x 2 iterations,
+\* no faults (the failure protocol does not depend on the loop body; see MCParallel_quick.cfg)
 SPECIFICATION SpecT
 CONSTANTS
   MaxProcs = 2
   Configs <- ConfigsTable
-  MaxFaults = 1
+  MaxFaults = 0
   LockedClaim = TRUE
   CheckExit = TRUE
   KillChildren = TRUE
